@@ -718,6 +718,7 @@ func typedAPI(repM, repU *Report, wM, wU *CaseWriter, r *rand.Rand, thorough boo
 	apiHookKeyOrder(repM, repU, r)
 	apiInterleavedTaps(repM)
 	apiCtxBuilders(repM, repU)
+	apiSkipEmptyIsZeroMethod(repM)
 	apiNoHalfAssignment(repU)
 	apiRound8More(repM, repU)
 	apiSkipAnything(repU)
@@ -2163,6 +2164,7 @@ func apiUnicodeFieldNames(repU *Report) {
 		desc := fmt.Sprintf("an object with exported non-ASCII field names: [%s]", truncate(descTokens(ts), 300))
 		if e != nil {
 			repU.violate("C11", "any-rejects-in-domain", fmt.Sprintf("rejected: %v", e), desc)
+			repU.violate("C01", "roundtrip-error", fmt.Sprintf("a struct with non-ASCII exported field names held in an interface position is rejected: %v", e), desc)
 			continue
 		}
 		if re, e2 := marshalTokens(back, nil); e2 != nil || !tokensExactEq(re, ts) {
@@ -2171,6 +2173,16 @@ func apiUnicodeFieldNames(repU *Report) {
 	}
 	var back UniFields
 	ts, _ := marshalTokens(v, nil)
+	nnames := 0
+	for _, t := range ts {
+		if s, ok := t.Value.(string); ok && t.Kind == sb.KindString && (s == "Größe" || s == "Δt" || s == "Ω" || s == "Ärger" || s == "A1_b") {
+			nnames++
+		}
+	}
+	if nnames != 5 {
+		repU.violate("C08", "exported-field-omitted", fmt.Sprintf("a struct with five exported fields (four non-ASCII names) marshals to [%s]", truncate(descTokens(ts), 300)), "UniFields")
+		repU.violate("C01", "roundtrip-not-equivalent", fmt.Sprintf("a struct with five exported fields (four non-ASCII names) marshals to [%s]", truncate(descTokens(ts), 300)), "UniFields")
+	}
 	if e := guard(func() error { return copyBudget(tokensFrom(ts), sb.Unmarshal(&back)) }); e != nil || !reflect.DeepEqual(back, v) {
 		repU.violate("C01", "roundtrip-error", fmt.Sprintf("a struct with non-ASCII field names does not round-trip: %v %+v", e, back), "UniFields")
 	}
@@ -3421,18 +3433,21 @@ func apiNoHalfAssignment(repU *Report) {
 		S  []inner
 		X  any
 		N  int
+		M  map[string]int
 	}
 	obj := func(fields ...sb.Token) []sb.Token {
 		return append(append([]sb.Token{tokK(sb.KindObject)}, fields...), tokK(sb.KindObjectEnd))
 	}
 	bad := tokS("not an int")
 	cases := map[string][]sb.Token{
-		"a mismatch inside the pointee":              obj(tokS("N"), tokI(1), tokS("P"), tokK(sb.KindObject), tokS("B"), tokS("b"), tokS("A"), bad),
-		"the stream ends inside the pointee":         obj(tokS("N"), tokI(1), tokS("P"), tokK(sb.KindObject), tokS("A"), tokI(2))[:7],
-		"a mismatch behind two pointer levels":       obj(tokS("N"), tokI(1), tokS("PP"), bad),
-		"a mismatch in the second slice element":     obj(tokS("N"), tokI(1), tokS("S"), tokK(sb.KindArray), tokK(sb.KindObject), tokS("A"), tokI(5), tokK(sb.KindObjectEnd), tokK(sb.KindObject), tokS("A"), bad),
-		"a bad key inside a schema-less map":         obj(tokS("N"), tokI(1), tokS("X"), tokK(sb.KindMap), tokS("k"), tokI(1), tokK(sb.KindArray), tokK(sb.KindArrayEnd), tokI(2), tokK(sb.KindMapEnd)),
-		"the stream ends inside a schema-less array": obj(tokS("N"), tokI(1), tokS("X"), tokK(sb.KindArray), tokI(1), tokI(2))[:8],
+		"a mismatch inside the pointee":                    obj(tokS("N"), tokI(1), tokS("P"), tokK(sb.KindObject), tokS("B"), tokS("b"), tokS("A"), bad),
+		"the stream ends inside the pointee":               obj(tokS("N"), tokI(1), tokS("P"), tokK(sb.KindObject), tokS("A"), tokI(2))[:7],
+		"a mismatch behind two pointer levels":             obj(tokS("N"), tokI(1), tokS("PP"), bad),
+		"a mismatch in the second slice element":           obj(tokS("N"), tokI(1), tokS("S"), tokK(sb.KindArray), tokK(sb.KindObject), tokS("A"), tokI(5), tokK(sb.KindObjectEnd), tokK(sb.KindObject), tokS("A"), bad),
+		"a bad key inside a schema-less map":               obj(tokS("N"), tokI(1), tokS("X"), tokK(sb.KindMap), tokS("k"), tokI(1), tokK(sb.KindArray), tokK(sb.KindArrayEnd), tokI(2), tokK(sb.KindMapEnd)),
+		"the first value of a nil map is rejected":         obj(tokS("N"), tokI(1), tokS("M"), tokK(sb.KindMap), tokS("k"), bad),
+		"the stream ends after the first key of a nil map": obj(tokS("N"), tokI(1), tokS("M"), tokK(sb.KindMap), tokS("k"))[:6],
+		"the stream ends inside a schema-less array":       obj(tokS("N"), tokI(1), tokS("X"), tokK(sb.KindArray), tokI(1), tokI(2))[:8],
 	}
 	for name, ts := range cases {
 		h := holder{S: []inner{{9, "kept"}}}
@@ -3443,11 +3458,194 @@ func apiNoHalfAssignment(repU *Report) {
 			repU.violate("C05", "mismatch-accepted", fmt.Sprintf("accepted: %+v", h), name+": ["+descTokens(ts)+"]")
 			continue
 		}
-		if h.P != nil || h.PP != nil || h.X != nil || len(h.S) != 1 || h.S[0] != (inner{9, "kept"}) || h.N != 1 {
-			what := fmt.Sprintf("after the failure (%s) the target holds P=%v PP=%v S=%v X=%v N=%d: a pointer is assigned, a slice replaced and an interface filled only once their value is complete (fields before the failing one keep what they were given)", classOf(e), h.P, h.PP, h.S, h.X, h.N)
+		if h.P != nil || h.PP != nil || h.X != nil || h.M != nil || len(h.S) != 1 || h.S[0] != (inner{9, "kept"}) || h.N != 1 {
+			what := fmt.Sprintf("after the failure (%s) the target holds P=%v PP=%v S=%v X=%v M=%v N=%d: a pointer is assigned, a slice replaced and an interface filled only once their value is complete (fields before the failing one keep what they were given)", classOf(e), h.P, h.PP, h.S, h.X, h.M, h.N)
 			repU.violate("C05", "half-assigned-on-failure", what, name+": ["+descTokens(ts)+"]")
 			repU.violate("C01", "half-assigned-on-failure", what, name+": ["+descTokens(ts)+"]")
 			repU.violate("C15", "half-assigned-on-failure", what, name+": ["+descTokens(ts)+"]")
+			repU.violate("C11", "half-assigned-on-failure", what, name+": ["+descTokens(ts)+"]")
+		}
+	}
+}
+
+// ---- round 9 ----
+
+// a resolver that answers with a stream AND an error: the error is the answer
+func apiDerefResolverBoth(rep *Report) {
+	ts := []sb.Token{tokK(sb.KindArray), {Kind: sb.KindRef, Value: []byte("h")}, tokI(2), tokK(sb.KindArrayEnd)}
+	got, err := collect(sb.Deref(tokensFrom(ts), func([]byte) (sb.Stream, error) { return tokensFrom([]sb.Token{tokI(1)}), errInjected }))
+	rep.Evaluations++
+	rep.count("api:deref-resolver-both")
+	if classOf(err) != "EFault" {
+		rep.violate("C10", "resolver-error-lost", fmt.Sprintf("a resolver returning a stream together with an error: Deref delivers [%s] and %v, the error must surface", descTokens(got), err), "resolver returns (stream, error)")
+		rep.violate("C15", "stream-fault-lost", fmt.Sprintf("a resolver returning a stream together with an error: Deref delivers [%s] and %v", descTokens(got), err), "resolver returns (stream, error)")
+	}
+}
+
+// the target of a Hash sink holds nothing before the value is complete, and nothing after a run that failed
+func apiHashTargetTiming(rep *Report) {
+	for _, f := range []hashFn{hashFns[0], hashFns[2]} {
+		var sum []byte
+		sink := sb.Hash(f.new, &sum, nil)
+		early := false
+		toks := []sb.Token{{Kind: sb.KindTypeName, Value: "t"}, tokI(5)}
+		for i := range toks {
+			tk := toks[i]
+			var e error
+			if sink, e = sink(&tk); e != nil {
+				return
+			}
+			if sum != nil {
+				early = true
+			}
+		}
+		var end sb.Token
+		if sink != nil {
+			sink, _ = sink(&end)
+		}
+		want, _ := sinkHash(toks, f)
+		rep.Evaluations++
+		rep.count("api:hash-target-timing")
+		if early || !bytes.Equal(sum, want) {
+			what := fmt.Sprintf("H=%s: the target of a Hash sink was written before the type-named value was complete (early=%v); at the end it holds %x, the stream hashes to %x", f.name, early, sum, want)
+			rep.violate("C09", "digest-before-the-end", what, "[TypeName t, Int 5] driven by hand")
+			rep.violate("C12", "node-hash-wrong", what, "[TypeName t, Int 5] driven by hand")
+		}
+		// a run that fails after the named scalar: the target stays nil
+		var sum2 []byte
+		failing := faultyAt([]sb.Token{{Kind: sb.KindTypeName, Value: "t"}, tokI(5), tokI(6)}, 2)
+		e := guard(func() error { return sb.Copy(failing, sb.Hash(f.new, &sum2, nil)) })
+		if classOf(e) != "EFault" || sum2 != nil {
+			what := fmt.Sprintf("H=%s: a stream that fails right after a type-named scalar leaves %x in the Hash target (%v); a failed run leaves it nil", f.name, sum2, e)
+			rep.violate("C09", "digest-before-the-end", what, "[TypeName t, Int 5] then a fault")
+			rep.violate("C12", "node-hash-wrong", what, "[TypeName t, Int 5] then a fault")
+			rep.violate("C15", "fault-prefix", what, "[TypeName t, Int 5] then a fault")
+		}
+	}
+}
+
+// skip-empty is about Go zero values and empty slices, not about an IsZero() method
+type optInt struct {
+	V     int
+	Valid bool
+}
+
+func (o optInt) IsZero() bool { return !o.Valid }
+
+func apiSkipEmptyIsZeroMethod(repM *Report) {
+	type T struct {
+		When time.Time
+		Opt  optInt
+		N    int
+	}
+	v := T{When: time.Time{}.In(time.FixedZone("x", 3600)), Opt: optInt{V: 7, Valid: false}, N: 0}
+	skip := mkCtx(true, false)
+	ts, err := marshalTokens(v, &skip)
+	repM.Evaluations++
+	repM.count("api:skip-empty-iszero-method")
+	names := map[string]bool{}
+	depth := 0
+	for i, t := range ts {
+		switch t.Kind {
+		case sb.KindObject:
+			depth++
+		case sb.KindObjectEnd:
+			depth--
+		case sb.KindString:
+			if depth == 1 && i > 0 && (ts[i-1].Kind == sb.KindObject || true) {
+				if s, ok := t.Value.(string); ok && (s == "When" || s == "Opt" || s == "N") {
+					names[s] = true
+				}
+			}
+		}
+	}
+	if err != nil || !names["When"] || !names["Opt"] || names["N"] {
+		repM.violate("C16", "skip-empty-drops-non-empty", fmt.Sprintf("under skip-empty a time.Time with a location (not the Go zero value, IsZero() true) and a struct {V:7 Valid:false} with an IsZero method must be kept, the zero int dropped: got [%s] (%v)", truncate(descTokens(ts), 300), err), "fields whose IsZero() method says true although they are not zero values")
+		repM.violate("C08", "skip-empty-drops-non-empty", fmt.Sprintf("got [%s] (%v)", truncate(descTokens(ts), 300), err), "fields whose IsZero() method says true although they are not zero values")
+	}
+}
+
+// Compare walks its two streams in lock step: when the left one fails, the right one has not been advanced further
+func apiCompareLockStep(rep *Report) {
+	ts := []sb.Token{tokI(1), tokS("a"), tokI(2), tokS("b"), tokI(3)}
+	for at := 0; at <= len(ts); at++ {
+		pulls := 0
+		var right sb.Proc
+		i := 0
+		right = func(t *sb.Token) (sb.Proc, error) {
+			pulls++
+			if i >= len(ts) {
+				return nil, nil
+			}
+			*t = ts[i]
+			i++
+			return right, nil
+		}
+		_, err := sb.Compare(faultyAt(ts, at), &right)
+		rep.Evaluations++
+		rep.count("api:compare-lock-step")
+		if classOf(err) != "EFault" || pulls != at {
+			rep.violate("C06", "not-lock-step", fmt.Sprintf("the left stream fails at its pull %d: Compare returns %v and has pulled the right stream %d times, expected %d", at+1, err, pulls, at), "Compare with a failing left stream")
+			rep.violate("C15", "fault-prefix", fmt.Sprintf("the left stream fails at its pull %d: Compare returns %v and has pulled the right stream %d times, expected %d", at+1, err, pulls, at), "Compare with a failing left stream")
+		}
+	}
+}
+
+// a writer that refuses ONE call at a token boundary: the token offered again to the same sink completes the output
+type hiccupWriter struct {
+	buf    bytes.Buffer
+	calls  int
+	failAt int
+}
+
+func (w *hiccupWriter) Write(p []byte) (int, error) {
+	w.calls++
+	if w.calls == w.failAt {
+		return 0, errInjected
+	}
+	return w.buf.Write(p)
+}
+
+func apiEncodeRetry(rep *Report) {
+	ts := []sb.Token{tokI(1), tokS("abc"), tokK(sb.KindNil), {Kind: sb.KindBytes, Value: []byte("xy")}, tokI(2)}
+	want := runEncode(ts, 0, 0).bytes
+	// write-call index at which each token starts (plain writer)
+	starts := []int{}
+	{
+		w, cw := mkWriter(0, 0)
+		sink := sb.Encode(w)
+		for i := range ts {
+			starts = append(starts, cw.calls+1)
+			tk := ts[i]
+			sink, _ = sink(&tk)
+		}
+	}
+	for k, st := range starts {
+		w := &hiccupWriter{failAt: st}
+		sink := sb.Encode(w)
+		ok := true
+		for i := 0; i < len(ts) && ok; i++ {
+			tk := ts[i]
+			next, e := sink(&tk)
+			if e != nil {
+				if i != k || classOf(e) != "EFault" {
+					ok = false
+					break
+				}
+				tk = ts[i]
+				next, e = sink(&tk) // the same token again, on the sink we hold
+				if e != nil {
+					ok = false
+					break
+				}
+			}
+			sink = next
+		}
+		rep.Evaluations++
+		rep.count("api:encode-retry")
+		if !ok || !bytes.Equal(w.buf.Bytes(), want) {
+			rep.violate("C03", "encode-not-resumable", fmt.Sprintf("the writer refused the first write of token %d once; offering the token again to the same sink gives %x, the stream encodes to %x", k, w.buf.Bytes(), want), "transient writer fault at a token boundary")
+			rep.violate("C15", "encode-not-resumable", fmt.Sprintf("the writer refused the first write of token %d once; offering the token again to the same sink gives %x, the stream encodes to %x", k, w.buf.Bytes(), want), "transient writer fault at a token boundary")
 		}
 	}
 }
